@@ -108,7 +108,12 @@ func (vfs *BasePathFS) ToBasePath(path string) string {
 	trailingSep := len(path) > 1 && vfs.IsPathSeparator(path[len(path)-1])
 
 	if !vfs.IsAbs(path) {
-		curDir, _ := vfs.Getwd()
+		curDir, err := vfs.Getwd()
+		if err != nil || !vfs.IsAbs(curDir) {
+			// the current directory is unknown : the path is taken from the root, never glued to the base path.
+			curDir = vfs.basePath[:avfs.VolumeNameLen(vfs, vfs.basePath)] + string(vfs.PathSeparator())
+		}
+
 		path = vfs.Join(curDir, path)
 	}
 
